@@ -25,6 +25,11 @@
 (*   FlushInPlace        flush writes the final name directly (no rename)  *)
 (*   TrustSidecarWithoutFile  a valid sidecar is trusted although the data *)
 (*                       file did not exist / was shorter (pinned commit)  *)
+(*   SizeBeforeMeta      handleFileBegin creates the data file and sets its *)
+(*                       full length BEFORE it removes metadata it does not *)
+(*                       trust (the code up to fix F-C06-3): a kill between *)
+(*                       the two leaves a full-length empty file next to    *)
+(*                       metadata that still claims chunks                  *)
 (***************************************************************************)
 EXTENDS Integers, FiniteSets, TLC
 
@@ -36,7 +41,7 @@ CONSTANTS N,            \* chunks of the file
           AllowTorn,    \* BOOLEAN: tampered states include a torn highest-marked chunk (use with MaxKills = 0:
                         \* TLC shows that a torn chunk followed by an *interrupted* repair run gets buried below
                         \* the next verification point - outside C06's single-resume statement, noted in DESIGN.md)
-          MarkBeforeWrite, FlushInPlace, TrustSidecarWithoutFile
+          MarkBeforeWrite, FlushInPlace, TrustSidecarWithoutFile, SizeBeforeMeta
 
 Chunks == 0..(N - 1)
 NoBits == {}
@@ -56,9 +61,11 @@ VARIABLES
   advertised,\* what the receiver reported in this run ("none" before)
   atRestart, \* the sidecar bits found at the start of this run (history, for C04-ii)
   kills,
-  done       \* the current run completed (FileDone ok)
+  done,      \* the current run completed (FileDone ok)
+  spc,       \* handleFileBegin of this run: "off" | "stat" (looked at the data file) | "one" (first of size / metadata done) | "run"
+  saw        \* what the look at the data file found (priorComplete)
 
-vars == <<file, fileThere, disk, tmp, alive, mem, dirty, rpc, fpc, plan, tosend, advertised, atRestart, kills, done>>
+vars == <<file, fileThere, disk, tmp, alive, mem, dirty, rpc, fpc, plan, tosend, advertised, atRestart, kills, done, spc, saw>>
 
 \* on-disk sidecar values are records [k, bits] (TLC cannot compare strings with records)
 D(k, b) == [k |-> k, bits |-> b]
@@ -94,12 +101,28 @@ Init ==
   /\ rpc = [r \in Readers |-> Idle] /\ fpc = [st |-> "idle", bits |-> NoBits]
   /\ plan = NoPlan /\ tosend = {} /\ advertised = NoAdv /\ atRestart = NoBits
   /\ kills = 0 /\ done = FALSE
+  /\ spc = "off" /\ saw = FALSE
 
 \* ---- start of a run: handleFileBegin + LoadOrCreateSidecarWithFallback + buildResumeInfo ---------
-Start ==
+\* three steps, a kill may strike between them: look at the data file; then - in the order of the code -
+\* create it / set its length, and decide about the metadata found on disk
+StartStat ==
   /\ ~alive /\ ~done
-  /\ alive' = TRUE
-  /\ LET usable == IsBits(disk) /\ (fileThere \/ TrustSidecarWithoutFile)
+  /\ alive' = TRUE /\ spc' = "stat" /\ saw' = fileThere
+  /\ mem' = NoBits /\ dirty' = FALSE
+  /\ rpc' = [r \in Readers |-> Idle] /\ fpc' = [st |-> "idle", bits |-> NoBits]
+  /\ UNCHANGED <<file, fileThere, disk, tmp, plan, tosend, advertised, atRestart, kills, done>>
+
+StartSize ==
+  /\ alive /\ spc = (IF SizeBeforeMeta THEN "stat" ELSE "one")
+  /\ fileThere' = TRUE                                              \* O_CREATE + Truncate(full size)
+  /\ spc' = IF SizeBeforeMeta THEN "one" ELSE "run"
+  /\ UNCHANGED <<file, disk, tmp, alive, mem, dirty, rpc, fpc, plan, tosend, advertised, atRestart, kills, done, saw>>
+
+StartMeta ==
+  /\ alive /\ spc = (IF SizeBeforeMeta THEN "one" ELSE "stat")
+  /\ spc' = IF SizeBeforeMeta THEN "run" ELSE "one"
+  /\ LET usable == IsBits(disk) /\ (saw \/ TrustSidecarWithoutFile)
          bits == IF usable THEN disk.bits ELSE NoBits
      IN /\ mem' = bits
         /\ atRestart' = bits
@@ -114,63 +137,62 @@ Start ==
                mismatch == V >= 0 /\ file[V] # "good"
            IN /\ plan' = [known |-> TRUE, skip |-> skip, resend |-> IF mismatch THEN {V} ELSE {}]
               /\ tosend' = (Chunks \ skip) \cup (IF mismatch THEN {V} ELSE {})
-  /\ fileThere' = TRUE                                              \* O_CREATE + Truncate(full size)
-  /\ file' = file
-  /\ dirty' = FALSE /\ tmp' = tmp
-  /\ rpc' = [r \in Readers |-> Idle] /\ fpc' = [st |-> "idle", bits |-> NoBits]
-  /\ UNCHANGED <<kills, done>>
+  /\ UNCHANGED <<file, fileThere, tmp, alive, dirty, rpc, fpc, kills, done, saw>>
+
+Start == StartStat \/ StartSize \/ StartMeta
+Running == alive /\ spc = "run"
 
 \* ---- data-stream readers: receive, write, mark --------------------------------------------
 Recv(r, c) ==
-  /\ alive /\ rpc[r].st = "idle" /\ c \in tosend
+  /\ Running /\ rpc[r].st = "idle" /\ c \in tosend
   /\ ~\E q \in Readers : rpc[q].st # "idle" /\ rpc[q].c = c
   /\ rpc' = [rpc EXCEPT ![r] = [st |-> "got", c |-> c]]
   /\ tosend' = tosend \ {c}
-  /\ UNCHANGED <<file, fileThere, disk, tmp, alive, mem, dirty, fpc, plan, advertised, atRestart, kills, done>>
+  /\ UNCHANGED <<file, fileThere, disk, tmp, alive, mem, dirty, fpc, plan, advertised, atRestart, kills, done, spc, saw>>
 
 WriteChunk(r) ==
-  /\ alive /\ rpc[r].st = (IF MarkBeforeWrite THEN "claimed" ELSE "got")
+  /\ Running /\ rpc[r].st = (IF MarkBeforeWrite THEN "claimed" ELSE "got")
   /\ file' = [file EXCEPT ![rpc[r].c] = "good"]
   /\ rpc' = [rpc EXCEPT ![r].st = IF MarkBeforeWrite THEN "idle" ELSE "written"]
-  /\ UNCHANGED <<fileThere, disk, tmp, alive, mem, dirty, fpc, plan, tosend, advertised, atRestart, kills, done>>
+  /\ UNCHANGED <<fileThere, disk, tmp, alive, mem, dirty, fpc, plan, tosend, advertised, atRestart, kills, done, spc, saw>>
 
 \* markChunkComplete needs the sidecar mutex: blocked while a flush is in progress
 Mark(r) ==
-  /\ alive /\ rpc[r].st = (IF MarkBeforeWrite THEN "got" ELSE "written") /\ fpc.st = "idle"
+  /\ Running /\ rpc[r].st = (IF MarkBeforeWrite THEN "got" ELSE "written") /\ fpc.st = "idle"
   /\ mem' = mem \cup {rpc[r].c}
   /\ dirty' = TRUE
   /\ rpc' = [rpc EXCEPT ![r].st = IF MarkBeforeWrite THEN "claimed" ELSE "idle"]
-  /\ UNCHANGED <<file, fileThere, disk, tmp, alive, fpc, plan, tosend, advertised, atRestart, kills, done>>
+  /\ UNCHANGED <<file, fileThere, disk, tmp, alive, fpc, plan, tosend, advertised, atRestart, kills, done, spc, saw>>
 
 \* ---- flusher (ticker / FlushAllFlushers / finalize): snapshot, temp file, rename ---------------
 FlushSnap ==
-  /\ alive /\ fpc.st = "idle" /\ dirty
+  /\ Running /\ fpc.st = "idle" /\ dirty
   /\ fpc' = [st |-> "snap", bits |-> mem]
-  /\ UNCHANGED <<file, fileThere, disk, tmp, alive, mem, dirty, rpc, plan, tosend, advertised, atRestart, kills, done>>
+  /\ UNCHANGED <<file, fileThere, disk, tmp, alive, mem, dirty, rpc, plan, tosend, advertised, atRestart, kills, done, spc, saw>>
 
 FlushTmp ==
-  /\ alive /\ fpc.st = "snap"
+  /\ Running /\ fpc.st = "snap"
   /\ IF FlushInPlace
        THEN /\ disk' = Garbage /\ tmp' = tmp          \* the final name is being rewritten in place: torn while in progress
        ELSE /\ tmp' = Valid(fpc.bits) /\ disk' = disk
   /\ fpc' = [fpc EXCEPT !.st = "tmp"]
-  /\ UNCHANGED <<file, fileThere, alive, mem, dirty, rpc, plan, tosend, advertised, atRestart, kills, done>>
+  /\ UNCHANGED <<file, fileThere, alive, mem, dirty, rpc, plan, tosend, advertised, atRestart, kills, done, spc, saw>>
 
 FlushRename ==
-  /\ alive /\ fpc.st = "tmp"
+  /\ Running /\ fpc.st = "tmp"
   /\ disk' = Valid(fpc.bits)
   /\ tmp' = IF FlushInPlace THEN tmp ELSE Absent
   /\ dirty' = FALSE
   /\ fpc' = [st |-> "idle", bits |-> NoBits]
-  /\ UNCHANGED <<file, fileThere, alive, mem, rpc, plan, tosend, advertised, atRestart, kills, done>>
+  /\ UNCHANGED <<file, fileThere, alive, mem, rpc, plan, tosend, advertised, atRestart, kills, done, spc, saw>>
 
 \* ---- the run completes: every chunk the sender planned has been applied, final flush done ------
 Complete ==
-  /\ alive /\ tosend = {} /\ \A r \in Readers : rpc[r].st = "idle"
+  /\ Running /\ tosend = {} /\ \A r \in Readers : rpc[r].st = "idle"
   /\ fpc.st = "idle" /\ ~dirty
   /\ mem = Chunks
-  /\ done' = TRUE /\ alive' = FALSE
-  /\ UNCHANGED <<file, fileThere, disk, tmp, mem, dirty, rpc, fpc, plan, tosend, advertised, atRestart, kills>>
+  /\ done' = TRUE /\ alive' = FALSE /\ spc' = "off"
+  /\ UNCHANGED <<file, fileThere, disk, tmp, mem, dirty, rpc, fpc, plan, tosend, advertised, atRestart, kills, saw>>
 
 \* ---- SIGKILL at any instant ---------------------------------------------------------------
 Kill ==
@@ -180,7 +202,8 @@ Kill ==
   /\ rpc' = [r \in Readers |-> Idle] /\ fpc' = [st |-> "idle", bits |-> NoBits]
   /\ plan' = NoPlan /\ tosend' = {} /\ advertised' = NoAdv
   /\ tmp' = IF fpc.st = "snap" /\ ~FlushInPlace THEN Partial ELSE tmp   \* a temp file being written may be partial; it is never read
-  /\ UNCHANGED <<file, fileThere, disk, atRestart, done>>
+  /\ spc' = "off"
+  /\ UNCHANGED <<file, fileThere, disk, atRestart, done, saw>>
 
 Terminated == done /\ UNCHANGED vars
 
@@ -188,7 +211,7 @@ Next == Start \/ FlushSnap \/ FlushTmp \/ FlushRename \/ Complete \/ Kill \/ Ter
         \/ \E r \in Readers : WriteChunk(r) \/ Mark(r) \/ \E c \in Chunks : Recv(r, c)
 
 Spec == Init /\ [][Next]_vars
-FairSpec == Spec /\ WF_vars(Start) /\ WF_vars(FlushSnap) /\ WF_vars(FlushTmp) /\ WF_vars(FlushRename) /\ WF_vars(Complete)
+FairSpec == Spec /\ WF_vars(StartStat) /\ WF_vars(StartSize) /\ WF_vars(StartMeta) /\ WF_vars(FlushSnap) /\ WF_vars(FlushTmp) /\ WF_vars(FlushRename) /\ WF_vars(Complete)
             /\ \A r \in Readers : WF_vars(WriteChunk(r)) /\ WF_vars(Mark(r)) /\ WF_vars(\E c \in Chunks : Recv(r, c))
 
 \* ---- properties ------------------------------------------------------------
@@ -198,11 +221,11 @@ MetadataSound == (~Tamper /\ IsBits(disk)) => \A c \in disk.bits : file[c] = "go
 \* C05: the final name never holds a torn file produced by this implementation
 AtomicReplace == ~Tamper => disk.k # "garbage"
 \* the in-memory bitmap is sound too (what the next flush will persist)
-MemSound == (~Tamper /\ alive) => \A c \in mem : file[c] = "good" \/ (MarkBeforeWrite /\ \E r \in Readers : rpc[r].c = c)
+MemSound == (~Tamper /\ Running) => \A c \in mem : file[c] = "good" \/ (MarkBeforeWrite /\ \E r \in Readers : rpc[r].c = c)
 \* C04 / C06: a run that completes leaves the identical file
 CompleteIsCorrect == done => \A c \in Chunks : file[c] = "good"
 \* C04-ii: the receiver advertises exactly what its metadata marked when the run started
-AdvertisedIsPersisted == (alive /\ advertised.known) => advertised.bits = atRestart
+AdvertisedIsPersisted == (Running /\ advertised.known) => advertised.bits = atRestart
 \* C04: progress - a run can always be completed (checked with FairSpec, kills bounded)
 EventuallyDone == <>done
 =============================================================================
